@@ -329,6 +329,8 @@ func (s *stepper) Step(i int, st replay.Step) (replay.Obs, error) {
 		obs["dec"] = dec
 		obs["accepted"] = dec == "ok"
 		obs["client_error"] = r.Panic == "" && r.Status >= 400 && r.Status < 500
+		// C03: a complete HTTP response with a status code, never a panic out of ServeHTTP
+		obs["answered"] = r.Panic == "" && r.Status >= 200 && r.Status < 600
 		j := svc.Take(sm.sid)
 		hookRuns := 0
 		for _, h := range s.hooks {
